@@ -468,7 +468,7 @@ func (v *Vue) evalFilter(ctx VueContext, seg pipeSegment, input any, isFirst, fr
 	fn, exists := v.funcMap[seg.name]
 	if !exists {
 		err := fmt.Errorf("function '%s' not found", seg.name)
-		if isFirst && !strings.Contains(seg.expr, "(") {
+		if isFirst && !fromInitial && !strings.Contains(seg.expr, "(") {
 			return nil, err // a lone word at the head may be a variable or a literal that a caller tries next
 		}
 		return nil, &funcCallError{name: seg.name, err: err, bare: true}
@@ -499,7 +499,7 @@ func (v *Vue) evalFilter(ctx VueContext, seg pipeSegment, input any, isFirst, fr
 
 	result, err := v.callFunc(&ctx, fn, args...)
 	if err != nil {
-		if isFirst && !strings.Contains(seg.expr, "(") {
+		if isFirst && !fromInitial && !strings.Contains(seg.expr, "(") {
 			// a lone word at the head that happens to be a registered name (title, type, default):
 			// it may be the variable of that name, which a caller tries next
 			return nil, fmt.Errorf("%s(): %w", seg.name, err)
